@@ -34,7 +34,7 @@ Print Assumptions C15_user_rules.
    routed is allowed by the write ACL - an alias never carries a publish past the ACL *)
 Theorem C15_alias_cannot_bypass_acl : forall allowed ps tp,
   In (ARouted tp) (alias_run allowed [] ps) -> allowed tp = true.
-Proof. intros allowed ps tp. apply alias_run_ok. intros a t H. discriminate. Qed.
+Proof. intros allowed ps tp. apply alias_run_ok. Qed.
 Print Assumptions C15_alias_cannot_bypass_acl.
 
 Example C15_nonvacuous :
